@@ -206,3 +206,106 @@ Proof.
   destruct l as [lead text|ws|lead w1 more trail]; cbn [filter is_words word_lines map]; try exact (IH H2).
   rewrite (split_ws_words _ _ _ _ H1), (IH H2). reflexivity.
 Qed.
+
+(* ================= other line terminators, missing final terminator ================= *)
+Definition nonskipped (l : str) : bool := negb (skipped l).
+Definition not_lf_start (s : str) : bool := match s with c :: _ => negb (byte_eqb c x0a) | [] => true end.
+
+Lemma filter_rendered f : afile_ok f = true ->
+  filter nonskipped (map render_aline f) = map render_aline (filter is_words f).
+Proof.
+  unfold afile_ok, nonskipped. induction f as [|l f IH]; intros H; [reflexivity|].
+  cbn [forallb] in H. apply andb_prop in H. destruct H as [H1 H2].
+  cbn [map filter]. rewrite (skipped_aline l H1), negb_involutive.
+  destruct (is_words l); cbn [map]; rewrite (IH H2); reflexivity.
+Qed.
+Lemma words_of_filtered f : afile_ok f = true ->
+  map split_ws (map render_aline (filter is_words f)) = word_lines f.
+Proof.
+  unfold afile_ok. induction f as [|l f IH]; intros H; [reflexivity|].
+  cbn [forallb] in H. apply andb_prop in H. destruct H as [H1 H2].
+  destruct l as [lead text|ws|lead w1 more trail]; cbn [filter is_words word_lines map]; try exact (IH H2).
+  rewrite (split_ws_words _ _ _ _ H1), (IH H2). reflexivity.
+Qed.
+
+Lemma universal_nl_crlf l s : no_linebreak l = true ->
+  universal_nl (l ++ x0d :: x0a :: s) = l ++ x0a :: universal_nl s.
+Proof.
+  unfold no_linebreak. induction l as [|c l IH]; intros H; [reflexivity|].
+  cbn [forallb] in H. apply andb_prop in H. destruct H as [H1 H2].
+  cbn [app universal_nl]. rewrite (nolb_nocr c H1), (IH H2). reflexivity.
+Qed.
+Lemma universal_nl_cr l s : no_linebreak l = true -> not_lf_start s = true ->
+  universal_nl (l ++ x0d :: s) = l ++ x0a :: universal_nl s.
+Proof.
+  unfold no_linebreak. intros H Hs. induction l as [|c l IH].
+  - cbn [app universal_nl]. change (byte_eqb x0d x0d) with true. cbv iota.
+    destruct s as [|d s']; [reflexivity|]. cbn [not_lf_start] in Hs.
+    destruct (byte_eqb d x0a); [discriminate|reflexivity].
+  - cbn [forallb] in H. apply andb_prop in H. destruct H as [H1 H2].
+    cbn [app universal_nl]. rewrite (nolb_nocr c H1), (IH H2). reflexivity.
+Qed.
+Lemma universal_nl_nolb l : no_linebreak l = true -> universal_nl l = l.
+Proof.
+  unfold no_linebreak. induction l as [|c l IH]; intros H; [reflexivity|].
+  cbn [forallb] in H. apply andb_prop in H. destruct H as [H1 H2].
+  cbn [universal_nl]. rewrite (nolb_nocr c H1), (IH H2). reflexivity.
+Qed.
+Lemma splitlines_last l : no_linebreak l = true -> l <> [] -> splitlines l = [l].
+Proof.
+  unfold no_linebreak. induction l as [|c l IH]; intros H Hne; [congruence|].
+  cbn [forallb] in H. apply andb_prop in H. destruct H as [H1 H2].
+  cbn [splitlines]. destruct (is_linebreak c); [discriminate|].
+  destruct l as [|d l']; [reflexivity|]. rewrite (IH H2); [reflexivity|discriminate].
+Qed.
+
+Definition L (s : str) : list str := splitlines (universal_nl s).
+Lemma L_line e l s : no_linebreak l = true -> (e = CR -> not_lf_start s = true) ->
+  L (l ++ eol_str e ++ s) = l :: L s.
+Proof.
+  intros H Hs. unfold L. destruct e; cbn [eol_str app].
+  - rewrite (universal_nl_line _ _ H). apply splitlines_line. exact H.
+  - rewrite (universal_nl_crlf _ _ H). apply splitlines_line. exact H.
+  - rewrite (universal_nl_cr _ _ H (Hs eq_refl)). apply splitlines_line. exact H.
+Qed.
+Lemma L_last l : no_linebreak l = true -> filter nonskipped (L l) = filter nonskipped [l].
+Proof.
+  intros H. unfold L. rewrite (universal_nl_nolb l H).
+  destruct l as [|c l']; [reflexivity|]. rewrite (splitlines_last _ H); [reflexivity|discriminate].
+Qed.
+
+Lemma nolb_not_lf c : negb (is_linebreak c) = true -> negb (byte_eqb c x0a) = true.
+Proof. destruct c; vm_compute; intros H; try reflexivity; discriminate. Qed.
+Lemma not_lf_start_app l s : no_linebreak l = true -> not_lf_start s = true -> not_lf_start (l ++ s) = true.
+Proof.
+  destruct l as [|c l]; [intros _ H; exact H|]. unfold no_linebreak. cbn [forallb app not_lf_start].
+  intros H _. apply andb_prop in H. apply nolb_not_lf. exact (proj1 H).
+Qed.
+Lemma not_lf_start_render final f : afile_ok f = true -> not_lf_start (render_with CR final f) = true.
+Proof.
+  unfold afile_ok. destruct f as [|l r]; intros H; [reflexivity|].
+  cbn [forallb] in H. apply andb_prop in H. destruct H as [H1 _].
+  cbn [render_with]. apply not_lf_start_app; [apply aline_no_linebreak; exact H1|].
+  destruct r; [destruct final; reflexivity|reflexivity].
+Qed.
+
+Lemma content_lines_render_with e final f : afile_ok f = true ->
+  content_lines (render_with e final f) = map render_aline (filter is_words f).
+Proof.
+  intros H. rewrite <- (filter_rendered f H).
+  unfold content_lines. change (splitlines (universal_nl ?x)) with (L x). fold nonskipped.
+  unfold afile_ok in H. induction f as [|l r IH]; [reflexivity|].
+  cbn [forallb] in H. apply andb_prop in H. destruct H as [H1 H2].
+  pose proof (aline_no_linebreak l H1) as Hl.
+  cbn [render_with]. destruct r as [|l2 r'].
+  - destruct final.
+    + rewrite <- (app_nil_r (eol_str e)). rewrite (L_line e _ [] Hl (fun _ => eq_refl)). reflexivity.
+    + rewrite app_nil_r. apply L_last. exact Hl.
+  - assert (Hcr : e = CR -> not_lf_start (render_with e final (l2 :: r')) = true)
+      by (intros ->; apply not_lf_start_render; exact H2).
+    rewrite (L_line e _ _ Hl Hcr).
+    cbn [map filter]. rewrite (IH H2). reflexivity.
+Qed.
+Lemma words_of_rendered_with e final f : afile_ok f = true ->
+  map split_ws (content_lines (render_with e final f)) = word_lines f.
+Proof. intros H. rewrite (content_lines_render_with e final f H). apply words_of_filtered. exact H. Qed.
